@@ -34,7 +34,9 @@ type c18Scenario struct {
 	Files   map[string]string // old contents
 	Args    []string
 	Targets []string          // files that may be rewritten
+	Links   map[string]string // symbolic links created in the scratch directory: name -> target
 	New     map[string]string // expected new contents (target -> bytes); absent = must stay old
+	newVia  map[string]string // new contents as read through each link name
 }
 
 func c18Unformatted(n int) string {
@@ -59,7 +61,14 @@ func c18Dir(e *core.Env) string {
 	return d
 }
 
+var c18Links map[string]string
+
 func c18Reset(dir string, files map[string]string) {
+	defer func() {
+		for n, t := range c18Links {
+			os.Symlink(t, filepath.Join(dir, n))
+		}
+	}()
 	ents, _ := os.ReadDir(dir)
 	for _, en := range ents {
 		os.RemoveAll(filepath.Join(dir, en.Name()))
@@ -76,6 +85,17 @@ func c18Expected(dir string, sc *c18Scenario) error {
 	cmd.Dir = dir
 	cmd.Run()
 	sc.New = map[string]string{}
+	sc.newVia = map[string]string{}
+	for n, t := range sc.Links {
+		if b, err := os.ReadFile(filepath.Join(dir, n)); err == nil {
+			sc.newVia[n] = string(b)
+			// the command may replace the link by a regular file (atomic rename): then the
+			// link name carries the new contents and the real file keeps the old ones
+			if string(b) != sc.Files[t] {
+				sc.New[t] = string(b)
+			}
+		}
+	}
 	for _, t := range sc.Targets {
 		b, err := os.ReadFile(filepath.Join(dir, t))
 		if err != nil {
@@ -90,6 +110,16 @@ func c18Expected(dir string, sc *c18Scenario) error {
 
 // c18Verify checks the all-or-nothing invariant on the files in dir.
 func c18Verify(dir string, sc *c18Scenario) (string, string) {
+	// what a symbolic link name resolves to must also be complete old or new contents
+	for n, t := range sc.Links {
+		b, err := os.ReadFile(filepath.Join(dir, n))
+		if err != nil {
+			return "C18:target-missing", fmt.Sprintf("%s: %v", n, err)
+		}
+		if nw, ok := sc.New[t]; string(b) != sc.Files[t] && !(ok && string(b) == nw) && !(sc.newVia != nil && string(b) == sc.newVia[n]) {
+			return "C18:truncated-or-mixed-via-symlink", fmt.Sprintf("%s (-> %s) holds %d bytes that are neither old nor new contents", n, t, len(b))
+		}
+	}
 	for _, t := range sc.Targets {
 		b, err := os.ReadFile(filepath.Join(dir, t))
 		if err != nil {
@@ -407,6 +437,10 @@ func c18Scenarios(e *core.Env) []c18Scenario {
 		{Name: "format-unparseable", Files: map[string]string{"f.knut": broken}, Args: []string{"format", "f.knut"}, Targets: []string{"f.knut"}},
 		{Name: "format-three-files-middle-broken", Files: map[string]string{"a.knut": c18Unformatted(700), "b.knut": broken, "c.knut": c18Unformatted(900)},
 			Args: []string{"format", "a.knut", "b.knut", "c.knut"}, Targets: []string{"a.knut", "b.knut", "c.knut"}},
+		{Name: "format-through-symlink", Files: map[string]string{"real.knut": c18Unformatted(900)}, Links: map[string]string{"link.knut": "real.knut"},
+			Args: []string{"format", "link.knut"}, Targets: []string{"real.knut"}},
+		{Name: "infer-inplace-through-symlink", Files: map[string]string{"train.knut": train, "real.knut": target + c18Unformatted(3000)}, Links: map[string]string{"link.knut": "real.knut"},
+			Args: []string{"infer", "-t", "train.knut", "--inplace", "link.knut"}, Targets: []string{"real.knut", "train.knut"}},
 		{Name: "infer-inplace", Files: map[string]string{"train.knut": train, "target.knut": target}, Args: []string{"infer", "-t", "train.knut", "--inplace", "target.knut"}, Targets: []string{"target.knut", "train.knut"}},
 	}
 	_ = jr.Open
@@ -423,6 +457,7 @@ func c18Run(e *core.Env) {
 	errnos := []string{"ENOSPC", "EIO", "EACCES"}
 	for _, sc := range c18Scenarios(e) {
 		sc := sc
+		c18Links = sc.Links
 		if err := c18Expected(dir, &sc); err != nil {
 			e.EngineError("%s: %v", sc.Name, err)
 			continue
@@ -455,23 +490,31 @@ func c18Run(e *core.Env) {
 			key, detail := c18Verify(dir, &sc)
 			if key == "" && code == 0 && !strings.HasPrefix(fault, "kill") {
 				// a run that reports success must have written everything
-				for t, nw := range sc.New {
-					if b, _ := os.ReadFile(filepath.Join(dir, t)); string(b) != nw && sc.Name != "format-three-files-middle-broken" {
-						key, detail = "C18:success-reported-but-file-not-rewritten", t
+				if len(sc.Links) > 0 {
+					// the command may replace the link itself: what the link name resolves to counts
+					for n := range sc.Links {
+						if b, _ := os.ReadFile(filepath.Join(dir, n)); string(b) != sc.newVia[n] {
+							key, detail = "C18:success-reported-but-file-not-rewritten", n
+						}
+					}
+				} else {
+					for t, nw := range sc.New {
+						if b, _ := os.ReadFile(filepath.Join(dir, t)); string(b) != nw && sc.Name != "format-three-files-middle-broken" {
+							key, detail = "C18:success-reported-but-file-not-rewritten", t
+						}
 					}
 				}
 			}
 			if key != "" {
 				cs := c18Case{sc.Name, fault}
-				e.Violation(key+":"+strings.SplitN(fault, "=", 2)[0], detail+"\nscenario "+sc.Name+", fault "+fault+", exit "+fmt.Sprint(code)+"\nstderr: "+clip(stderr, 400), cs, func() bool {
-					if strings.HasSuffix(fault, ":p1") {
-						c18Procs = "1"
-					}
-					c18RunFault(dir, &sc, wrapper)
-					c18Procs = "2"
-					k, _ := c18Verify(dir, &sc)
-					return k == key
-				})
+				var recheck func() bool
+				if len(sc.Targets) == 1 || strings.HasSuffix(fault, ":p1") {
+					recheck = func() bool { return c18Recheck(dir, &sc, wrapper, fault, key) }
+				}
+				// with several files and several OS threads the index of a syscall is not
+				// reproducible from run to run; a corrupted file seen on the real binary is
+				// evidence by itself, so such cases are reported without the 5x re-execution
+				e.Violation(key+":"+strings.SplitN(fault, "=", 2)[0], detail+"\nscenario "+sc.Name+", fault "+fault+", exit "+fmt.Sprint(code)+"\nstderr: "+clip(stderr, 400), cs, recheck)
 			}
 		}
 		// 1. write cut short at every byte offset
@@ -551,6 +594,16 @@ func c18Run(e *core.Env) {
 	}
 }
 
+func c18Recheck(dir string, sc *c18Scenario, wrapper []string, fault, key string) bool {
+	if strings.HasSuffix(fault, ":p1") {
+		c18Procs = "1"
+	}
+	c18RunFault(dir, sc, wrapper)
+	c18Procs = "2"
+	k, _ := c18Verify(dir, sc)
+	return k == key
+}
+
 func opsSummary(ops []c18Op) []string {
 	var res []string
 	for _, o := range ops {
@@ -584,6 +637,7 @@ func c18Replay(e *core.Env, data json.RawMessage) (bool, string) {
 			continue
 		}
 		sc := sc
+		c18Links = sc.Links
 		c18Expected(dir, &sc)
 		if cs.Fault == "power-loss" {
 			ops, _, _ := c18Record(dir, &sc)
